@@ -399,7 +399,7 @@ impl Prop for C05 {
         v
     }
     fn cases(&self, tier: Tier) -> u32 {
-        tier.pick(1500, 30_000)
+        tier.pick(4000, 30_000)
     }
     fn min_nontrivial(&self, tier: Tier) -> usize {
         tier.pick(200, 2000)
